@@ -30,16 +30,19 @@ macro_rules! c15_layer_layout {
             whole[0] = 1;
             whole[1 + 4 + NV + 4 + NP] = 0; whole[2 + 4 + NV + 4 + NP] = 0; whole[3 + 4 + NV + 4 + NP] = 0;
             let bytes = &mut whole[1..];
+            // node digests concrete (they are only carried along here; their binding is C10's subject)
+            let mut z = 0;
+            while z < NP { bytes[8 + NV + z] = (z as u8).wrapping_mul(37); z += 1; }
             bytes[0] = NV as u8; bytes[1] = 0; bytes[2] = 0; bytes[3] = 0;
             bytes[4 + NV] = NP as u8; bytes[5 + NV] = 0; bytes[6 + NV] = 0; bytes[7 + NV] = 0;
             bytes[8 + NV] = $k;
             let mut q = 0;
             while q < $k { bytes[9 + NV + 9 * q] = 1; q += 1; }
             let bytes = &whole[1..];
-            // all coordinates canonical (< 257): what an honest prover writes
-            let mut canonical = true;
+            // all coordinates canonical (< 257): what an honest prover writes (a non-canonical coordinate is the subject of
+            // c15_layer_noncanonical_rejected; keeping the two apart avoids 2^12 accept/reject paths in one harness)
             let mut i = 0;
-            while i < NV / 2 { if u16::from_le_bytes([bytes[4 + 2 * i], bytes[5 + 2 * i]]) >= 257 { canonical = false; } i += 1; }
+            while i < NV / 2 { kani::assume(u16::from_le_bytes([bytes[4 + 2 * i], bytes[5 + 2 * i]]) < 257); i += 1; }
             let mut r = SliceReader::new(&whole);
             let proof = FriProof::read_from(&mut r).unwrap();
             // parse_layers divides the domain size by the folding factor before parsing the layer: 2 leaves, depth 1
@@ -49,7 +52,7 @@ macro_rules! c15_layer_layout {
                 assert!(res.is_err());
             } else {
                 // a whole number of queries of canonical elements: accepted (completeness of the layout) ...
-                assert!(res.is_ok() == canonical);
+                assert!(res.is_ok());
                 if let Ok((mut lv, mut lp)) = res {
                     assert!(lv.len() == 1 && lp.len() == 1);
                     let vals = lv.pop().unwrap();
@@ -57,33 +60,54 @@ macro_rules! c15_layer_layout {
                     // ... the values come back in order, and each leaf is the hash of its query's values
                     assert!(vals.len() * $deg * 2 == NV && mp.leaves.len() * $fold == vals.len());
                     let base = <$E>::slice_as_base_elements(&vals);
-                    let j: usize = kani::any();
-                    kani::assume(j < NV / 2);
-                    assert!(base[j] == T(u16::from_le_bytes([bytes[4 + 2 * j], bytes[5 + 2 * j]])));
-                    let l: usize = kani::any();
-                    kani::assume(l < mp.leaves.len());
-                    assert!(mp.leaves[l] == PH::hash_elements(&vals[l * $fold..(l + 1) * $fold]));
+                    let mut j = 0;
+                    while j < NV / 2 { assert!(base[j] == T(u16::from_le_bytes([bytes[4 + 2 * j], bytes[5 + 2 * j]]))); j += 1; }
+                    let mut l = 0;
+                    while l < $k { assert!(mp.leaves[l] == PH::hash_elements(&vals[l * $fold..(l + 1) * $fold])); l += 1; }
                     assert!(mp.depth == 1 && mp.nodes.len() == $k);
                     core::mem::forget((vals, mp, lv, lp));
                 }
             }
-            kani::cover!(canonical);
-            kani::cover!(!canonical);
+            kani::cover!(true);
         }
     };
 }
-// @ob id=C15 also=C03 tier=quick req=1 fs=1 to=900 name=c15_layer_cubic_f4_q1 funcs="FriProof::read_from,FriProof::parse_layers,FriProofLayer::parse,BatchMerkleProof::deserialize" bounds="cubic extension of F_257 (6-byte elements), folding 4, 1 query (24 value bytes)" sym="all value bytes, node digests" enum="element type, folding factor, number of queries"
+// @ob id=C15 also=C03 tier=quick req=1 fs=1 to=900 name=c15_layer_cubic_f4_q1 funcs="FriProof::read_from,FriProof::parse_layers,FriProofLayer::parse,BatchMerkleProof::deserialize" bounds="cubic extension of F_257 (6-byte elements), folding 4, 1 query (24 value bytes)" sym="all value bytes" enum="element type, folding factor, number of queries, node digests"
 c15_layer_layout!(c15_layer_cubic_f4_q1, C3, 3, 4, 1, 0, 30);
-// @ob id=C15 also=C03 tier=quick req=1 fs=1 to=900 name=c15_layer_cubic_f2_q2 funcs="FriProof::read_from,FriProof::parse_layers,FriProofLayer::parse,BatchMerkleProof::deserialize" bounds="cubic extension of F_257, folding 2, 2 queries (24 value bytes)" sym="all value bytes, node digests" enum="element type, folding factor, number of queries"
+// @ob id=C15 also=C03 tier=quick req=1 fs=1 to=900 name=c15_layer_cubic_f2_q2 funcs="FriProof::read_from,FriProof::parse_layers,FriProofLayer::parse,BatchMerkleProof::deserialize" bounds="cubic extension of F_257, folding 2, 2 queries (24 value bytes)" sym="all value bytes" enum="element type, folding factor, number of queries, node digests"
 c15_layer_layout!(c15_layer_cubic_f2_q2, C3, 3, 2, 2, 0, 30);
-// @ob id=C15 also=C03 tier=quick req=1 fs=1 to=900 name=c15_layer_quad_f4_q1 funcs="FriProof::read_from,FriProof::parse_layers,FriProofLayer::parse,BatchMerkleProof::deserialize" bounds="quadratic extension of F_257 (4-byte elements), folding 4, 1 query" sym="all value bytes, node digests" enum="element type, folding factor, number of queries"
+// @ob id=C15 also=C03 tier=quick req=1 fs=1 to=900 name=c15_layer_quad_f4_q1 funcs="FriProof::read_from,FriProof::parse_layers,FriProofLayer::parse,BatchMerkleProof::deserialize" bounds="quadratic extension of F_257 (4-byte elements), folding 4, 1 query" sym="all value bytes" enum="element type, folding factor, number of queries, node digests"
 c15_layer_layout!(c15_layer_quad_f4_q1, Q, 2, 4, 1, 0, 24);
-// @ob id=C15 also=C03 tier=quick req=1 fs=1 to=900 name=c15_layer_base_f2_q3 funcs="FriProof::read_from,FriProof::parse_layers,FriProofLayer::parse,BatchMerkleProof::deserialize" bounds="F_257 (2-byte elements), folding 2, 3 queries" sym="all value bytes, node digests" enum="element type, folding factor, number of queries"
-c15_layer_layout!(c15_layer_base_f2_q3, T, 1, 2, 3, 0, 20);
+// @ob id=C15 also=C03 tier=quick req=1 fs=1 to=900 name=c15_layer_base_f2_q3 funcs="FriProof::read_from,FriProof::parse_layers,FriProofLayer::parse,BatchMerkleProof::deserialize" bounds="F_257 (2-byte elements), folding 2, 3 queries" sym="all value bytes" enum="element type, folding factor, number of queries, node digests"
+c15_layer_layout!(c15_layer_base_f2_q3, T, 1, 2, 3, 0, 32);
 // @ob id=C15 also=C03 tier=quick req=1 fs=1 to=900 name=c15_layer_cubic_f4_partial funcs="FriProof::read_from,FriProof::parse_layers,FriProofLayer::parse" bounds="cubic extension of F_257, folding 4, 1 query plus 4 surplus base elements (32 value bytes: not a whole number of 24-byte queries)" sym="all value bytes, node digests" enum="element type, folding factor, number of queries, surplus"
 c15_layer_layout!(c15_layer_cubic_f4_partial, C3, 3, 4, 1, 4, 40);
 // @ob id=C15 also=C03 tier=quick req=1 fs=1 to=900 name=c15_layer_base_f4_partial funcs="FriProof::read_from,FriProof::parse_layers,FriProofLayer::parse" bounds="F_257, folding 4, 1 query plus 2 surplus elements" sym="all value bytes, node digests" enum="element type, folding factor, number of queries, surplus"
 c15_layer_layout!(c15_layer_base_f4_partial, T, 1, 4, 1, 2, 20);
+
+// @ob id=C15 also=C06 tier=quick req=1 fs=1 to=900 funcs="FriProof::read_from,FriProof::parse_layers,FriProofLayer::parse" bounds="cubic extension of F_257, folding 4, 1 query; ONE coordinate (position symbolic) not canonical" sym="position and value of the non-canonical coordinate, all other bytes" desc="a layer holding a non-canonical field element is refused"
+#[kani::proof]
+#[kani::unwind(30)]
+#[kani::stub(alloc::fmt::format, nofmt)]
+fn c15_layer_noncanonical_rejected() {
+    const NV: usize = 24;
+    const NP: usize = 10;
+    let mut whole: [u8; 1 + 4 + NV + 4 + NP + 3] = kani::any();
+    whole[0] = 1;
+    whole[1 + 4 + NV + 4 + NP] = 0; whole[2 + 4 + NV + 4 + NP] = 0; whole[3 + 4 + NV + 4 + NP] = 0;
+    whole[1] = NV as u8; whole[2] = 0; whole[3] = 0; whole[4] = 0;
+    whole[5 + NV] = NP as u8; whole[6 + NV] = 0; whole[7 + NV] = 0; whole[8 + NV] = 0;
+    whole[9 + NV] = 1; whole[10 + NV] = 1;
+    let j: usize = kani::any();
+    kani::assume(j < NV / 2);
+    kani::assume(u16::from_le_bytes([whole[5 + 2 * j], whole[6 + 2 * j]]) >= 257);
+    let mut r = SliceReader::new(&whole);
+    let proof = FriProof::read_from(&mut r).unwrap();
+    let res = proof.parse_layers::<PH, C3>(8, 4);
+    assert!(res.is_err());
+    kani::cover!(j == 11);
+    core::mem::forget(res);
+}
 
 // ---- FriVerifier::new: the degree bookkeeping of the commit phase -------------------------------------------------------------
 // An honest prover sends num_fri_layers(domain) + 1 commitments; the verifier's constructor must accept exactly the layer counts
@@ -111,7 +135,7 @@ macro_rules! c15_verifier_new {
         fn $name() {
             let k: u32 = kani::any();
             let lb: u32 = kani::any();
-            kani::assume(lb >= 1 && lb <= 3 && k + lb <= 8);
+            kani::assume(k <= 8 && lb >= 1 && lb <= 3 && k + lb <= 8);
             let blowup = 1usize << lb;
             let rmd_log: u32 = kani::any();
             kani::assume(rmd_log <= 4);
@@ -124,7 +148,8 @@ macro_rules! c15_verifier_new {
             let mut coin = CtrCoin::new(&[]);
             // degree bound: 2^k - 1 (the documented use) or, one case in two, any bound whose padded domain is the same
             let d: usize = kani::any();
-            kani::assume(d < (1usize << k) && d + 1 > (1usize << k) / 2);
+            // 2^(k-1) < d < 2^k, so that d.next_power_of_two() = 2^k (for d an exact power of two the library's domain is d * blowup)
+            kani::assume(d < (1usize << k) && (d > (1usize << k) / 2 || k == 0));
             let pow2 = d + 1 == (1usize << k);
             let res = FriVerifier::<T, StubCh, PH2, CtrCoin>::new(&mut ch, &mut coin, options.clone(), d);
             // expected: before each of the c folding steps the number of coefficients is divisible by the folding factor
